@@ -52,12 +52,18 @@ TOK2BYTE = {CR: 13, LF: 10, A: 0x61, M1: 0xC3, M2: 0xA9, SP: 0x20, COLON: 0x3A, 
 BYTE2TOK = {b: t for t, b in TOK2BYTE.items()}
 
 
+BLK = 10                 # line protocol only: a run of 1024 x 'a' (long lines without long token sequences)
+BLKLEN = 1024
+
+
 def tb(tokens, word=b'CMD'):
-    """token sequence -> bytes (token 9 = a well-formed command word)."""
+    """token sequence -> bytes (token 9 = a well-formed command word, 10 = 1024 x 'a')."""
     out = bytearray()
     for t in tokens:
         if t == KW:
             out += word
+        elif t == BLK:
+            out += b'a' * BLKLEN
         elif t >= 100:
             out.append(t - 100)
         else:
@@ -68,6 +74,26 @@ def tb(tokens, word=b'CMD'):
 def tt(data):
     """bytes -> token sequence."""
     return [BYTE2TOK.get(b, 100 + b) for b in data]
+
+
+def tt_blocks(data):
+    """bytes -> tokens with every maximal run of n x 'a' written as n // 1024
+    block tokens followed by n % 1024 'a' tokens.  Used for the long-line cases,
+    whose streams are built in this canonical form and cut at token boundaries
+    only, so that the tokens of a line / tail are the concatenation of the tokens
+    of the reads."""
+    out = []
+    pos = 0
+    for m in _ARUN.finditer(data):
+        out += [BYTE2TOK.get(b, 100 + b) for b in data[pos:m.start()]]
+        q, r = divmod(m.end() - m.start(), BLKLEN)
+        out += [BLK] * q + [A] * r
+        pos = m.end()
+    out += [BYTE2TOK.get(b, 100 + b) for b in data[pos:]]
+    return out
+
+
+_ARUN = re.compile(b'a+')
 
 
 def subst_kw(seq, word):
@@ -159,11 +185,12 @@ class _Sock:
 class LineRig:
     """A real circuits.protocols.line.Line under a root Manager."""
 
-    def __init__(self, mode, nsock):
+    def __init__(self, mode, nsock, blocks=False):
         from circuits import BaseComponent, Manager, handler
         from circuits.protocols.line import Line
         self.mode = mode
         self.nsock = nsock
+        self.tt = tt_blocks if blocks else tt
         self.log = []
         self.root = Manager()
         rig = self
@@ -187,7 +214,7 @@ class LineRig:
                 else:
                     s = rig.ids.get(id(args[0]), 0) if len(args) == 2 else 0
                     data = args[-1]
-                rig.log.append({'k': 'line', 's': s, 'd': tt(data) if isinstance(data, (bytes, bytearray)) else [999]})
+                rig.log.append({'k': 'line', 's': s, 'd': rig.tt(data) if isinstance(data, (bytes, bytearray)) else [999]})
 
         Obs().register(self.root)
         self.settle()
@@ -209,7 +236,7 @@ class LineRig:
         before any is dispatched), run to quiescence, record the tails."""
         from circuits.net.events import read
         for s, data in reads:
-            self.log.append({'k': 'read', 's': s, 'd': tt(data)})
+            self.log.append({'k': 'read', 's': s, 'd': self.tt(data)})
             if self.mode == 'client':
                 self.root.fire(read(data))
             else:
@@ -219,19 +246,19 @@ class LineRig:
         for s, _ in reads:
             if s not in done:
                 done.append(s)
-                self.log.append({'k': 'tail', 's': s, 'd': tt(self.held(s))})
+                self.log.append({'k': 'tail', 's': s, 'd': self.tt(self.held(s))})
 
     def finish(self):
         for s in range(1, self.nsock + 1):
-            self.log.append({'k': 'tail', 's': s, 'd': tt(self.held(s))})
+            self.log.append({'k': 'tail', 's': s, 'd': self.tt(self.held(s))})
         self.log.append({'k': 'end', 's': 0, 'd': []})
         return self.log
 
 
-def run_line_script(mode, nsock, script):
+def run_line_script(mode, nsock, script, blocks=False):
     """script: list of steps; a step is a list of [sock, tokens] reads.
     Returns the trace {'cfg':..., 'lines':...}."""
-    rig = LineRig(mode, nsock)
+    rig = LineRig(mode, nsock, blocks)
     for step in script:
         rig.step([(s, tb(seg)) for s, seg in step])
     return {'cfg': {'nsock': nsock, 'mode': mode}, 'lines': rig.finish()}
@@ -243,7 +270,7 @@ def line_witness(case, trace, badline):
     crcut = any(seg and seg[-1] == CR for _, seg in reads)
     ln = trace['lines'][badline - 1] if 0 < badline <= len(trace['lines']) else {}
     return {'part': 'line', 'mode': case['mode'], 'sockets': case['nsock'],
-            'cr_at_segment_end': crcut, 'at': ln.get('k', '')}
+            'cr_at_segment_end': crcut, 'at': ln.get('k', ''), 'long_line': case.get('what', '')}
 
 
 def random_line_case(rnd, quick):
@@ -287,6 +314,41 @@ def all_cuts_cases(stream, mode, nsock=1):
                 start = i
         script.append([[1, stream[start:]]])
         yield {'part': 'line', 'mode': mode, 'nsock': nsock, 'script': script, 'origin': 'all-cuts'}
+
+
+def long_line_cases(quick):
+    """lines (and unterminated tails) of 70 000 / 71 680 / 200 704 bytes between
+    short lines, delivered in 4 KiB reads, in two reads and in one read; client
+    mode, server mode, and server mode with a second socket's reads in between.
+    Token 10 stands for 1024 x 'a' (see tt_blocks)."""
+    longs = {'70000': [BLK] * 68 + [A] * 368, '70KiB': [BLK] * 70, '196KiB': [BLK] * 196}
+    if quick:
+        del longs['70KiB']
+    for name, body in longs.items():
+        for term in ([LF], [CR, LF], None):
+            head = [A] * 5 + [LF]
+            rest = (term + [LF] + [A] * 11 + [LF]) if term is not None else []
+            for delivery in ('4KiB', 'two', 'one'):
+                if delivery == '4KiB':
+                    nb = body.count(BLK)
+                    segs = [head] + [body[i:i + 4] for i in range(0, nb, 4)]
+                    segs.append(body[nb:] + rest)       # the last few hundred bytes and what follows
+                    segs = [x for x in segs if x]
+                elif delivery == 'two':
+                    h = len(body) // 2
+                    segs = [head + body[:h], body[h:] + rest]
+                else:
+                    segs = [head + body + rest]
+                for mode, nsock in (('client', 1), ('server', 1), ('server', 2)):
+                    if quick and mode == 'server' and nsock == 1 and delivery != '4KiB':
+                        continue
+                    script = []
+                    for i, seg in enumerate(segs):
+                        script.append([[1, seg]])
+                        if nsock == 2 and i % 5 == 1:
+                            script.append([[2, [A, CR] if i % 2 else [LF, A]]])
+                    yield {'part': 'line', 'mode': mode, 'nsock': nsock, 'script': script, 'blocks': True,
+                           'origin': 'long-line', 'what': '%s %s %s' % (name, 'tail' if term is None else len(term), delivery)}
 
 
 def mutate_line_trace(rnd, trace):
@@ -899,7 +961,7 @@ def mutate_irc_trace(rnd, trace):
 
 def run_case(case, ctors=None):
     if case['part'] == 'line':
-        return run_line_script(case['mode'], case['nsock'], case['script']), None
+        return run_line_script(case['mode'], case['nsock'], case['script'], bool(case.get('blocks'))), None
     return run_irc_case(case, ctors)
 
 
@@ -1002,8 +1064,8 @@ def run(tier, replay=None):
     # teeth: TLC's monitor must flag the defective variants somewhere in the dumps,
     # and must never flag the intended ones; the strict IRC serialiser must send
     teeth = {}
-    lteeth = [('hist_server', 'code', {'shared': 'C18.cross_socket', 'persegment': 'C18.lines'})] if quick else \
-        [('hist_client', 'code', {'persegment': 'C18.lines'}), ('hist_server', 'code', {'shared': 'C18.cross_socket'})]
+    lteeth = [('hist_server', 'code', {'shared': 'C18.cross_socket', 'persegment': 'C18.lines', 'capbuffer': 'C18.tail'})] if quick else \
+        [('hist_client', 'code', {'persegment': 'C18.lines'}), ('hist_server', 'code', {'shared': 'C18.cross_socket', 'capbuffer': 'C18.tail'})]
     for job, good, defective in lteeth + [('hist_irc', 'strict', {'pinned': 'C18.extra_line', 'fixed': 'C18.roundtrip',
                                                                     'cut512': 'C18.no_terminator'})]:
         sts = results[job][1]
@@ -1044,6 +1106,10 @@ def run(tier, replay=None):
     for mode in ('client', 'server'):
         for c in all_cuts_cases(nasty, mode):
             line_cases.append((c, None))
+    n_long_lines = 0
+    for c in long_line_cases(quick):
+        line_cases.append((c, None))
+        n_long_lines += 1
     for _ in range(300 if quick else 2000):
         line_cases.append((random_line_case(rnd, quick), None))
     lap('line cases built: %d' % len(line_cases))
@@ -1189,7 +1255,7 @@ def run(tier, replay=None):
         'states': mc_states, 'transitions': mc_trans,
         'tlc_runs': {n: {'distinct': r.distinct, 'generated': r.generated, 'wall_s': round(r.wall_s, 1)} for n, r in tres.items()},
         'traces_validated_against_impl': len(line_traces) + len(irc_runs),
-        'line_traces': len(line_traces), 'irc_cases': len(irc_runs),
+        'line_traces': len(line_traces), 'long_line_cases': n_long_lines, 'irc_cases': len(irc_runs),
         'irc_serialised': n_sent, 'irc_refused': n_rej,
         'irc_component_writes': n_written, 'irc_writes_of_messages_over_512_bytes': n_over512,
         'irc_cases_with_commands_in_a_row': n_multi,
